@@ -7,7 +7,8 @@
   timing of object changes (`view : Int → Int` is an arbitrary function: what the loop reads of
   `memory.idle_reset_time` at each instant; in `idle_law_full` it is derived from an arbitrary event
   history). `Sched cfg view spawn its` = `its` is a prefix of the iteration sequence of one timer task;
-  `stateAt cfg its n` = the in-memory handler state with which iteration `n` is entered. Whether an
+  `stateAt cfg spawn its n` = the in-memory handler state with which iteration `n` is entered. The
+  handler's `timeout`/`retries` limits are part of the model (`precheckFails`, `classify`). Whether an
   iteration invokes the function is determined by that state (`Iter.ok`), not assumed.
 
   What "one interval after the previous run ended" means in the code: every post-run sleep is entered
@@ -24,10 +25,10 @@ namespace Kopf.C10
 
 /-! ### no overlap -/
 
-/-- One step: the next iteration starts no earlier than the end of the previous one's post-run patch,
-    hence not before the previous run's function returned. No hypothesis on the configuration. -/
-theorem no_overlap_step (cfg : Cfg) (view : View) (h' : HState) (it : Iter) (t' : Int)
-    (hwf : it.ended ≤ it.patched) (h : Next cfg view h' it t') : it.ended ≤ t' ∧ it.patched ≤ t' := by
+/-- One step: the next iteration reaches the loop top, and starts, no earlier than the end of the
+    previous one's post-run patch, hence not before the previous run's function returned. -/
+theorem no_overlap_step (cfg : Cfg) (view : View) (h' : HState) (it : Iter) (top' t' : Int)
+    (hwf : it.ended ≤ it.patched) (h : Next cfg view h' it top' t') : it.ended ≤ t' ∧ it.patched ≤ t' := by
   have := h.ge_patched
   omega
 
@@ -45,39 +46,70 @@ theorem no_overlap (cfg : Cfg) (view : View) (spawn : Int) (its : List Iter) (h 
 
 /-! ### which iterations are runs: derived from the carried state -/
 
-/-- As long as the timer has not failed for good, EVERY iteration invokes the function: the carried
-    state is fresh (after a success) or a retrying one whose `delayed` instant has passed when the loop
-    comes round (the error-delay sleep and the idle gate only end later). Invariant over the sequence. -/
+/-- As long as the timer has not failed for good, EVERY iteration invokes the function — or the handler's
+    strict `timeout`/`retries` pre-check ends the series right there, without a call, and the state is
+    failed from then on. The carried state is fresh (after a success) or a retrying one whose `delayed`
+    instant has passed when the loop comes round. Invariant over the sequence. -/
 theorem invoked_unless_failed (cfg : Cfg) (view : View) (spawn : Int) (its : List Iter) (h : Sched cfg view spawn its)
-    (n : Nat) (a : Iter) (ha : its[n]? = some a) (hnf : (stateAt cfg its n).failure = false) :
-    a.res.isSome = true := by
-  obtain ⟨i1, i2⟩ := Sched.ready h n a ha
+    (n : Nat) (a : Iter) (ha : its[n]? = some a) (hnf : (stateAt cfg spawn its n).failure = false) :
+    a.runsOrExpires cfg (stateAt cfg spawn its n) ∧
+    (a.res = none → (stateAt cfg spawn its (n + 1)).failure = true) := by
+  have haw := Sched.awakened h n a ha hnf
   have hok := Sched.ok_at h n a ha
-  rw [hok.2.2.1]
-  generalize stateAt cfg its n = hs at i1 i2 hnf
-  unfold HState.atTop
-  by_cases hfin : hs.finished = true
-  · have hs' : hs.success = true := by
-      simp [HState.finished, hnf] at hfin; exact hfin
-    simp [hs', hnf, HState.awakened, HState.sleeping, HState.finished, HState.fresh]
-  · have hfin' : hs.finished = false := by cases hf : hs.finished <;> simp_all
-    simp only [hfin', Bool.false_and, Bool.false_eq_true, if_false]
-    cases hd : hs.delayed with
-    | none => simp [HState.awakened, HState.sleeping, hfin', hd]
-    | some d =>
-      have := i2 d hd
-      have hnot : ¬ (d > a.start) := by omega
-      simp [HState.awakened, HState.sleeping, hfin', hd, hnot]
+  have hsome := hok.2.2.1
+  rw [haw, Bool.true_and] at hsome
+  cases hp : precheckFails cfg ((stateAt cfg spawn its n).atTop a.top) a.start with
+  | false =>
+    rw [hp] at hsome
+    refine ⟨Or.inl (by simpa using hsome), fun hnone => ?_⟩
+    rw [hnone] at hsome; simp at hsome
+  | true =>
+    rw [hp] at hsome
+    have hnone : a.res = none := by cases hr : a.res <;> simp [hr] at hsome ⊢
+    refine ⟨Or.inr ⟨hnone, hp⟩, fun _ => ?_⟩
+    rw [stateAt_succ ha]
+    simp [step, hnone, haw, hp, HState.withOutcome]
+
+/-- … and with no `timeout`, and `retries` unset or ≥ 1, the pre-checks never fire: every iteration of a
+    timer that has not failed for good is a run. -/
+theorem invoked_unless_failed_no_timeout (cfg : Cfg) (view : View) (spawn : Int) (its : List Iter)
+    (h : Sched cfg view spawn its) (ht : cfg.timeout = none) (hr : cfg.retries ≠ some 0)
+    (n : Nat) (a : Iter) (ha : its[n]? = some a) (hnf : (stateAt cfg spawn its n).failure = false) :
+    a.res.isSome = true := by
+  rcases (invoked_unless_failed cfg view spawn its h n a ha hnf).1 with h1 | ⟨_, hp⟩
+  · exact h1
+  · exfalso
+    cases hN : cfg.retries with
+    | none => simp [precheckFails, ht, hN] at hp
+    | some N =>
+      have hpos : 0 < N := by
+        rcases Nat.eq_zero_or_pos N with h0 | h0
+        · exact absurd (by rw [hN, h0]) hr
+        · exact h0
+      have hlt := Sched.retries_lt h hN hpos n a ha
+      simp only [precheckFails, ht, hN, Bool.false_or, decide_eq_true_eq] at hp
+      unfold HState.atTop at hp
+      split at hp
+      · simp [HState.fresh] at hp; omega
+      · rename_i hc
+        have hfin : (stateAt cfg spawn its n).finished = false := by
+          cases hf : (stateAt cfg spawn its n).finished with
+          | false => rfl
+          | true => simp [hf, hnf] at hc
+        have := hlt hfin
+        omega
 
 /-- docs/timers.rst: "For PermanentError, the timer stops forever and is not retried." Once an iteration
     leaves the state failed (PermanentError, an arbitrary error under errors=PERMANENT, retries
-    exhausted), the state is kept at the top of the loop, nothing is awakened any more, and NO later
-    iteration of the sequence invokes the function — derived from the state machine (`atTop` keeps a
-    failed state, `awakened` is false for a finished one, `with_outcomes({})` changes nothing), for every
-    configuration and every timing. -/
+    exhausted, timeout reached), the state is kept at the top of the loop, nothing is awakened any more,
+    and NO later iteration of the sequence invokes the function — derived from the state machine (`atTop`
+    keeps a failed state, `awakened` is false for a finished one, `with_outcomes({})` changes nothing),
+    for every configuration and every timing. Scope: ONE timer task (`Sched`); a task stopped and spawned
+    again (filter mismatch and re-match, operator pause/resume) starts from a fresh state. -/
 theorem failed_is_last (cfg : Cfg) (view : View) (spawn : Int) (its : List Iter) (h : Sched cfg view spawn its)
-    (n : Nat) (hf : (stateAt cfg its n).failure = true) :
-    ∀ (m : Nat) (b : Iter), n ≤ m → its[m]? = some b → b.res = none ∧ (stateAt cfg its (m + 1)) = stateAt cfg its n := by
+    (n : Nat) (hf : (stateAt cfg spawn its n).failure = true) :
+    ∀ (m : Nat) (b : Iter), n ≤ m → its[m]? = some b →
+      b.res = none ∧ (stateAt cfg spawn its (m + 1)) = stateAt cfg spawn its n := by
   intro m
   induction m with
   | zero =>
@@ -85,13 +117,11 @@ theorem failed_is_last (cfg : Cfg) (view : View) (spawn : Int) (its : List Iter)
     have : n = 0 := by omega
     subst this
     have hok := Sched.ok_at h 0 b hb
-    have hst := step_of_failure (cfg := cfg) hf hok
-    refine ⟨?_, by rw [stateAt_succ hb, hst]⟩
-    have := hok.2.2.1; rw [not_awakened_of_failure hf] at this
-    cases hr : b.res <;> simp [hr] at this ⊢
+    obtain ⟨hst, hres⟩ := step_of_failure (cfg := cfg) hf hok
+    exact ⟨hres, by rw [stateAt_succ hb, hst]⟩
   | succ m ih =>
     intro b hnm hb
-    have hstate : stateAt cfg its (m + 1) = stateAt cfg its n := by
+    have hstate : stateAt cfg spawn its (m + 1) = stateAt cfg spawn its n := by
       rcases Nat.lt_or_ge n (m + 1) with hlt | hge
       · have hm : m < its.length := by
           rcases Nat.lt_or_ge (m + 1) its.length with h' | h'
@@ -100,38 +130,74 @@ theorem failed_is_last (cfg : Cfg) (view : View) (spawn : Int) (its : List Iter)
         exact (ih its[m] (by omega) (List.getElem?_eq_getElem hm)).2
       · have : n = m + 1 := by omega
         rw [this]
-    have hf' : (stateAt cfg its (m + 1)).failure = true := by rw [hstate]; exact hf
+    have hf' : (stateAt cfg spawn its (m + 1)).failure = true := by rw [hstate]; exact hf
     have hok := Sched.ok_at h (m + 1) b hb
-    have hst := step_of_failure (cfg := cfg) hf' hok
-    refine ⟨?_, by rw [stateAt_succ hb, hst, hstate]⟩
-    have := hok.2.2.1; rw [not_awakened_of_failure hf'] at this
-    cases hr : b.res <;> simp [hr] at this ⊢
+    obtain ⟨hst, hres⟩ := step_of_failure (cfg := cfg) hf' hok
+    exact ⟨hres, by rw [stateAt_succ hb, hst, hstate]⟩
 
 /-- a run that fails for good leaves the state failed (the link from results to `failed_is_last`) -/
-theorem failed_run_marks_state (cfg : Cfg) (its : List Iter) (n : Nat) (a : Iter) (r : Result) (ha : its[n]? = some a)
-    (hr : a.res = some r) (hc : classify cfg (attemptOf (stateAt cfg its n)) r = .failed) :
-    (stateAt cfg its (n + 1)).failure = true := by
+theorem failed_run_marks_state (cfg : Cfg) (spawn : Int) (its : List Iter) (n : Nat) (a : Iter) (r : Result)
+    (ha : its[n]? = some a) (hr : a.res = some r)
+    (hc : classify cfg (attemptOf (stateAt cfg spawn its n) a) (runtimeOf (stateAt cfg spawn its n) a) r = .failed) :
+    (stateAt cfg spawn its (n + 1)).failure = true := by
   rw [stateAt_succ ha]
-  unfold attemptOf at hc
+  unfold attemptOf runtimeOf at hc
   simp [step, hr, hc, HState.withOutcome]
+
+/-! ### the handler's timeout -/
+
+/-- `timeout=T`: an iteration of a not-yet-failed timer that starts `T` or more after the series' state
+    was created invokes nothing and ends the series for good (`HandlerTimeoutError` from the strict
+    pre-check) — "no attempt starts later than T". -/
+theorem timeout_ends_series (cfg : Cfg) (view : View) (spawn : Int) (its : List Iter) (h : Sched cfg view spawn its)
+    (n : Nat) (a : Iter) (T : Int) (ha : its[n]? = some a) (hnf : (stateAt cfg spawn its n).failure = false)
+    (ht : cfg.timeout = some T) (hlate : T ≤ a.start - ((stateAt cfg spawn its n).atTop a.top).started) :
+    a.res = none ∧ (stateAt cfg spawn its (n + 1)).failure = true := by
+  have hp : precheckFails cfg ((stateAt cfg spawn its n).atTop a.top) a.start = true := by
+    simp [precheckFails, ht, hlate]
+  have hok := Sched.ok_at h n a ha
+  have hsome := hok.2.2.1
+  rw [hp] at hsome
+  have hnone : a.res = none := by cases hr : a.res <;> simp [hr] at hsome ⊢
+  exact ⟨hnone, (invoked_unless_failed cfg view spawn its h n a ha hnf).2 hnone⟩
+
+/-- OBSERVATION (kopf defect, AUDIT_B2 §D-11; reported under C11, no clause of C10 is violated): the
+    series' `started` is stamped when the state is created — after the initial delay, BEFORE the idle
+    gate. If the idle gate holds the very first iteration for `T` or longer (e.g. `idle ≥ timeout` on a
+    freshly created object), the pre-check fires before the first call and the function is NEVER invoked
+    by this timer task. -/
+theorem timeout_before_first_call (cfg : Cfg) (view : View) (spawn : Int) (its : List Iter) (h : Sched cfg view spawn its)
+    (a : Iter) (T : Int) (ha : its[0]? = some a) (ht : cfg.timeout = some T)
+    (hlate : T ≤ a.start - initialWake cfg spawn) :
+    ∀ (m : Nat) (b : Iter), its[m]? = some b → b.res = none := by
+  have h0 : (stateAt cfg spawn its 0).atTop a.top = initState cfg spawn := by
+    rw [stateAt_zero]; exact atTop_of_unfinished (by simp [initState, HState.fresh, HState.finished]) _
+  have hnf : (stateAt cfg spawn its 0).failure = false := by rw [stateAt_zero]; rfl
+  obtain ⟨hnone, hfail⟩ := timeout_ends_series cfg view spawn its h 0 a T ha hnf ht
+    (by rw [h0]; simpa [initState, HState.fresh] using hlate)
+  intro m b hb
+  cases m with
+  | zero => rw [ha] at hb; cases hb; exact hnone
+  | succ m => exact (failed_is_last cfg view spawn its h 1 hfail (m + 1) b (by omega) hb).1
 
 /-! ### after a successful run: the interval -/
 
 /-- the state a successful run (or an ignored error) leaves is finished and not failed -/
-theorem success_marks_state (cfg : Cfg) (its : List Iter) (n : Nat) (a : Iter) (r : Result) (ha : its[n]? = some a)
-    (hr : a.res = some r) (hc : classify cfg (attemptOf (stateAt cfg its n)) r = .done) :
-    (stateAt cfg its (n + 1)).finished = true ∧ (stateAt cfg its (n + 1)).failure = false := by
+theorem success_marks_state (cfg : Cfg) (spawn : Int) (its : List Iter) (n : Nat) (a : Iter) (r : Result)
+    (ha : its[n]? = some a) (hr : a.res = some r)
+    (hc : classify cfg (attemptOf (stateAt cfg spawn its n) a) (runtimeOf (stateAt cfg spawn its n) a) r = .done) :
+    (stateAt cfg spawn its (n + 1)).finished = true ∧ (stateAt cfg spawn its (n + 1)).failure = false := by
   rw [stateAt_succ ha]
-  unfold attemptOf at hc
+  unfold attemptOf runtimeOf at hc
   simp [step, hr, hc, HState.withOutcome, HState.finished]
 
 /-- One step, non-sharp timers: after an iteration that left the state finished, the loop is back at
     its top exactly `interval` after the post-run patch ended, and the next iteration starts there unless
     the idle gate postpones it. -/
-theorem interval_law_step (cfg : Cfg) (view : View) (h' : HState) (it : Iter) (t' i : Int)
+theorem interval_law_step (cfg : Cfg) (view : View) (h' : HState) (it : Iter) (top' t' i : Int)
     (hi : cfg.interval = some i) (hpos : 0 < i) (hs : cfg.sharp = false) (hd : h'.finished = true)
-    (hwf : it.ended ≤ it.patched) (h : Next cfg view h' it t') :
-    it.ended + i ≤ t' ∧ it.patched + i ≤ t' ∧
+    (hwf : it.ended ≤ it.patched) (h : Next cfg view h' it top' t') :
+    top' = it.patched + i ∧ it.ended + i ≤ t' ∧ it.patched + i ≤ t' ∧
     (cfg.idle = none → t' = it.patched + i) ∧
     (∀ idle, cfg.idle = some idle →
         (idle ≤ (it.patched + i) - view (it.patched + i) → t' = it.patched + i) ∧
@@ -140,44 +206,48 @@ theorem interval_law_step (cfg : Cfg) (view : View) (h' : HState) (it : Iter) (t
   have hw : wake cfg h' it = .at (it.patched + i) := by
     unfold wake; simp [hd, hi, hs, sleepUntil_pos hpos]
   unfold Next at h; rw [hw] at h; simp only at h
+  obtain ⟨htop, h⟩ := h
   have hge := h.ge
-  refine ⟨by omega, hge, fun hn => Gate.no_idle hn h, fun idle hidle => ⟨?_, Gate.form hidle h, fun v hq => Gate.quiet hidle hq h⟩⟩
+  refine ⟨htop, by omega, hge, fun hn => Gate.no_idle hn h, fun idle hidle => ⟨?_, Gate.form hidle h, fun v hq => Gate.quiet hidle hq h⟩⟩
   intro hok
   unfold Gate at h; rw [hidle] at h
   cases h with
   | pass _ => rfl
   | wait hlt _ => omega
 
-/-- After a successful run the next iteration IS a run (the function is invoked again), and it starts
-    one interval after the end of the previous run's post-run patch unless idling postpones it:
+/-- After a successful run the next iteration IS a run (the function is invoked again — unless the
+    handler's timeout/retries pre-check ends the series there), and it starts one interval after the end
+    of the previous run's post-run patch unless idling postpones it:
     * never earlier than `patched + interval` (so never earlier than `ended + interval`);
     * exactly then when there is no `idle`, or when the idle time has already passed there;
     * if postponed, exactly `idle` after a reset read while waiting;
     * with no change after the wake-up (`view` stays `v`): exactly `max (patched + interval) (v + idle)`. -/
 theorem interval_law (cfg : Cfg) (view : View) (spawn : Int) (its : List Iter) (h : Sched cfg view spawn its)
     (n : Nat) (a b : Iter) (r : Result) (i : Int) (ha : its[n]? = some a) (hb : its[n + 1]? = some b)
-    (hr : a.res = some r) (hc : classify cfg (attemptOf (stateAt cfg its n)) r = .done)
+    (hr : a.res = some r)
+    (hc : classify cfg (attemptOf (stateAt cfg spawn its n) a) (runtimeOf (stateAt cfg spawn its n) a) r = .done)
     (hi : cfg.interval = some i) (hpos : 0 < i) (hs : cfg.sharp = false) :
-    b.res.isSome = true ∧ a.ended + i ≤ b.start ∧ a.patched + i ≤ b.start ∧
+    b.runsOrExpires cfg (stateAt cfg spawn its (n + 1)) ∧
+    b.top = a.patched + i ∧ a.ended + i ≤ b.start ∧ a.patched + i ≤ b.start ∧
     (cfg.idle = none → b.start = a.patched + i) ∧
     (∀ idle, cfg.idle = some idle →
         (idle ≤ (a.patched + i) - view (a.patched + i) → b.start = a.patched + i) ∧
         (b.start = a.patched + i ∨ ∃ u, a.patched + i ≤ u ∧ u < b.start ∧ b.start = view u + idle) ∧
         (∀ v, (∀ u, a.patched + i ≤ u → view u = v) → b.start = max (a.patched + i) (v + idle))) := by
-  obtain ⟨hfin, hnf⟩ := success_marks_state cfg its n a r ha hr hc
+  obtain ⟨hfin, hnf⟩ := success_marks_state cfg spawn its n a r ha hr hc
   have hok := Sched.ok_at h n a ha
-  exact ⟨invoked_unless_failed cfg view spawn its h (n + 1) b hb hnf,
-    interval_law_step cfg view _ a b.start i hi hpos hs hfin hok.2.1 (Sched.step_at h ha hb).1⟩
+  exact ⟨(invoked_unless_failed cfg view spawn its h (n + 1) b hb hnf).1,
+    interval_law_step cfg view _ a b.top b.start i hi hpos hs hfin hok.2.1 (Sched.step_at h ha hb).1⟩
 
 /-- One step, sharp timers: the loop is back at its top on the interval grid counted from the
     iteration's START: at `g = start + k·interval` with `k ≥ 1`, and `g` is the first grid point strictly
     after the end of the post-run patch (`g - interval ≤ patched < g`) — whatever the duration of the run
     (shorter, equal, longer than the interval: `k` counts the skipped grid points). -/
-theorem sharp_grid_step (cfg : Cfg) (view : View) (h' : HState) (it : Iter) (t' i : Int)
+theorem sharp_grid_step (cfg : Cfg) (view : View) (h' : HState) (it : Iter) (top' t' i : Int)
     (hi : cfg.interval = some i) (hpos : 0 < i) (hs : cfg.sharp = true) (hd : h'.finished = true)
-    (hwf : it.start ≤ it.patched) (h : Next cfg view h' it t') :
+    (hwf : it.start ≤ it.patched) (h : Next cfg view h' it top' t') :
     ∃ k : Nat, 1 ≤ k ∧ it.patched < it.start + k * i ∧ it.start + k * i - i ≤ it.patched ∧
-      Gate cfg view (it.start + k * i) t' ∧ it.start + k * i ≤ t' ∧
+      top' = it.start + k * i ∧ Gate cfg view (it.start + k * i) t' ∧ it.start + k * i ≤ t' ∧
       (cfg.idle = none → t' = it.start + k * i) := by
   have hp : 0 ≤ it.patched - it.start := by omega
   have hlt := Int.emod_lt_of_pos (it.patched - it.start) hpos
@@ -188,72 +258,87 @@ theorem sharp_grid_step (cfg : Cfg) (view : View) (h' : HState) (it : Iter) (t' 
     have : 0 < i - (it.patched - it.start) % i := by omega
     unfold wake; simp [hd, hi, hs, sleepUntil_pos this]
   unfold Next at h; rw [hw] at h; simp only at h
+  obtain ⟨htop, h⟩ := h
   refine ⟨((it.patched - it.start) / i).toNat + 1, by omega, ?_⟩
   have hk : (((it.patched - it.start) / i).toNat + 1 : Nat) * i = i * ((it.patched - it.start) / i) + i := by
     rw [Int.natCast_add, Int.toNat_of_nonneg hq, Int.add_mul, Int.mul_comm]; omega
   rw [hk]
   have hg : it.patched + (i - (it.patched - it.start) % i) = it.start + (i * ((it.patched - it.start) / i) + i) := by
     omega
-  rw [hg] at h
-  exact ⟨by omega, by omega, h, h.ge, fun hn => Gate.no_idle hn h⟩
+  rw [hg] at h htop
+  exact ⟨by omega, by omega, htop, h, h.ge, fun hn => Gate.no_idle hn h⟩
 
-/-- After a successful run of a sharp timer the next iteration is a run and starts on the interval grid
-    counted from the previous run's start — the first grid point strictly after the end of its post-run
-    patch — unless the idle gate postpones it (then it may leave the grid). -/
+/-- After a successful run of a sharp timer the next iteration is a run (unless the timeout/retries
+    pre-check ends the series) and starts on the interval grid counted from the previous run's start —
+    the first grid point strictly after the end of its post-run patch — unless the idle gate postpones
+    it (then it may leave the grid). -/
 theorem sharp_grid (cfg : Cfg) (view : View) (spawn : Int) (its : List Iter) (h : Sched cfg view spawn its)
     (n : Nat) (a b : Iter) (r : Result) (i : Int) (ha : its[n]? = some a) (hb : its[n + 1]? = some b)
-    (hr : a.res = some r) (hc : classify cfg (attemptOf (stateAt cfg its n)) r = .done)
+    (hr : a.res = some r)
+    (hc : classify cfg (attemptOf (stateAt cfg spawn its n) a) (runtimeOf (stateAt cfg spawn its n) a) r = .done)
     (hi : cfg.interval = some i) (hpos : 0 < i) (hs : cfg.sharp = true) :
-    b.res.isSome = true ∧
+    b.runsOrExpires cfg (stateAt cfg spawn its (n + 1)) ∧
     ∃ k : Nat, 1 ≤ k ∧ a.patched < a.start + k * i ∧ a.start + k * i - i ≤ a.patched ∧
-      Gate cfg view (a.start + k * i) b.start ∧ a.start + k * i ≤ b.start ∧
+      b.top = a.start + k * i ∧ Gate cfg view (a.start + k * i) b.start ∧ a.start + k * i ≤ b.start ∧
       (cfg.idle = none → b.start = a.start + k * i) := by
-  obtain ⟨hfin, hnf⟩ := success_marks_state cfg its n a r ha hr hc
+  obtain ⟨hfin, hnf⟩ := success_marks_state cfg spawn its n a r ha hr hc
   have hok := Sched.ok_at h n a ha
-  exact ⟨invoked_unless_failed cfg view spawn its h (n + 1) b hb hnf,
-    sharp_grid_step cfg view _ a b.start i hi hpos hs hfin (by have := hok.1; have := hok.2.1; omega) (Sched.step_at h ha hb).1⟩
+  exact ⟨(invoked_unless_failed cfg view spawn its h (n + 1) b hb hnf).1,
+    sharp_grid_step cfg view _ a b.top b.start i hi hpos hs hfin (by have := hok.1; have := hok.2.1; omega) (Sched.step_at h ha hb).1⟩
 
 /-! ### after a failed run: the error's delay or the backoff -/
 
 /-- One step: a retrying state with `delayed = D` brings the loop back to its top at `max patched D`. -/
-theorem error_delay_step (cfg : Cfg) (view : View) (h' : HState) (it : Iter) (t' D : Int)
-    (hf : h'.finished = false) (hd : h'.delayed = some D) (h : Next cfg view h' it t') :
-    Gate cfg view (max it.patched D) t' ∧ D ≤ t' ∧ it.patched ≤ t' ∧
+theorem error_delay_step (cfg : Cfg) (view : View) (h' : HState) (it : Iter) (top' t' D : Int)
+    (hf : h'.finished = false) (hd : h'.delayed = some D) (h : Next cfg view h' it top' t') :
+    top' = max it.patched D ∧ Gate cfg view (max it.patched D) t' ∧ D ≤ t' ∧ it.patched ≤ t' ∧
     (cfg.idle = none → t' = max it.patched D) := by
   have hw : wake cfg h' it = .at (max it.patched D) := by
     unfold wake; simp [hf, sleep_delay h' it.patched D hd]
   unfold Next at h; rw [hw] at h; simp only at h
+  obtain ⟨htop, h⟩ := h
   have := h.ge
-  exact ⟨h, by omega, by omega, fun hn => Gate.no_idle hn h⟩
+  exact ⟨htop, h, by omega, by omega, fun hn => Gate.no_idle hn h⟩
 
 /-- After a run that failed non-finally with delay `d` — `TemporaryError(delay=d)`, or an arbitrary
-    exception under the default `errors` mode with `d = backoff` (that is what `classify` yields when the
-    retries are not exhausted) — the interval is not used: the next iteration is a run (a retry) and
-    starts at `max patched (ended + d)` — the delay counts from the function's end, the patch round trip
-    is absorbed in it — unless the idle gate postpones it. -/
+    exception under the default `errors` mode with `d = backoff` (that is what `classify` yields when
+    neither the retries nor the timeout look-ahead makes the failure final) — the interval is not used:
+    the next iteration is a run (a retry, `retry` kwarg + 1; unless the timeout pre-check ends the series)
+    and starts at `max patched (ended + d)` — the delay counts from the function's end, the patch round
+    trip is absorbed in it — unless the idle gate postpones it. -/
 theorem error_delay_law (cfg : Cfg) (view : View) (spawn : Int) (its : List Iter) (h : Sched cfg view spawn its)
     (n : Nat) (a b : Iter) (r : Result) (d : Int) (ha : its[n]? = some a) (hb : its[n + 1]? = some b)
-    (hr : a.res = some r) (hc : classify cfg (attemptOf (stateAt cfg its n)) r = .retry (some d)) :
-    b.res.isSome = true ∧ attemptOf (stateAt cfg its (n + 1)) = attemptOf (stateAt cfg its n) + 1 ∧
+    (hr : a.res = some r)
+    (hc : classify cfg (attemptOf (stateAt cfg spawn its n) a) (runtimeOf (stateAt cfg spawn its n) a) r = .retry (some d)) :
+    b.runsOrExpires cfg (stateAt cfg spawn its (n + 1)) ∧
+    attemptOf (stateAt cfg spawn its (n + 1)) b = attemptOf (stateAt cfg spawn its n) a + 1 ∧
+    b.top = max a.patched (a.ended + d) ∧
     Gate cfg view (max a.patched (a.ended + d)) b.start ∧ a.ended + d ≤ b.start ∧ a.patched ≤ b.start ∧
     (cfg.idle = none → b.start = max a.patched (a.ended + d)) := by
-  have hst : stateAt cfg its (n + 1) =
-      { retries := (stateAt cfg its n).atTop.retries + 1, success := false, failure := false, delayed := some (a.ended + d) } := by
-    rw [stateAt_succ ha]; unfold attemptOf at hc; simp [step, hr, hc, HState.withOutcome]
+  have hst : stateAt cfg spawn its (n + 1) =
+      { ((stateAt cfg spawn its n).atTop a.top) with
+        retries := ((stateAt cfg spawn its n).atTop a.top).retries + 1, success := false, failure := false,
+        delayed := some (a.ended + d) } := by
+    rw [stateAt_succ ha]; unfold attemptOf runtimeOf at hc; simp [step, hr, hc, HState.withOutcome]
   have hnext := (Sched.step_at h ha hb).1
-  rw [hst] at hnext
-  refine ⟨invoked_unless_failed cfg view spawn its h (n + 1) b hb (by rw [hst]), ?_, ?_⟩
-  · rw [hst]; simp [attemptOf, HState.atTop, HState.finished]
-  · exact error_delay_step cfg view _ a b.start (a.ended + d) (by simp [HState.finished]) rfl hnext
+  have hnf : (stateAt cfg spawn its (n + 1)).failure = false := by rw [hst]
+  have hfin : (stateAt cfg spawn its (n + 1)).finished = false := by rw [hst]; simp [HState.finished]
+  have hdl : (stateAt cfg spawn its (n + 1)).delayed = some (a.ended + d) := by rw [hst]
+  refine ⟨(invoked_unless_failed cfg view spawn its h (n + 1) b hb hnf).1, ?_,
+    error_delay_step cfg view _ a b.top b.start (a.ended + d) hfin hdl hnext⟩
+  unfold attemptOf
+  rw [atTop_of_unfinished hfin, hst]
 
 /-! ### the first run: the initial delay -/
 
-/-- The first iteration of a (re)spawned timer task — a run, the state being fresh — is not earlier
-    than the spawn plus the initial delay; without `idle` it is exactly then. -/
-theorem initial_delay_law (cfg : Cfg) (view : View) (spawn t' d : Int)
-    (hd : cfg.initialDelay = some d) (h : First cfg view spawn t') :
+/-- The first iteration of a (re)spawned timer task is not earlier than the spawn plus the initial
+    delay; without `idle` it is exactly then. -/
+theorem initial_delay_law (cfg : Cfg) (view : View) (spawn top' t' d : Int)
+    (hd : cfg.initialDelay = some d) (h : First cfg view spawn top' t') :
     spawn + d ≤ t' ∧ spawn ≤ t' ∧ (cfg.idle = none → t' = max spawn (spawn + d)) := by
-  unfold First initialWake at h; rw [hd] at h; simp only at h
+  obtain ⟨htop, h⟩ := h
+  subst htop
+  unfold initialWake at h; rw [hd] at h; simp only at h
   have := h.ge
   have := sleepUntil_ge_add spawn d
   have := sleepUntil_ge spawn d
@@ -271,42 +356,44 @@ theorem idle_law (cfg : Cfg) (view : View) (spawn idle : Int) (its : List Iter)
   obtain ⟨n, hn, hget⟩ := List.getElem_of_mem hit
   have hb : its[n]? = some it := by rw [List.getElem?_eq_getElem hn, hget]
   rcases Sched.start_cases h n it hb with ⟨_, hf⟩ | ⟨m, a, _, _, hnext⟩
-  · exact Gate.idle_ok hi hf
+  · exact Gate.idle_ok hi hf.2
   · exact Next.idle_ok hi hnext
 
-/-- The property's idle clause in FULL (`FullIdle`): with `idle_reset_time` derived from the history of
-    processed events — for EVERY event history — no run starts within the idle time after ANY essential
-    change of the object (its essence differs from the previously processed version; the first sight
-    counts), whatever the object carries as last handled (so also for A → B → A with B never handled:
-    since the repair 201494d an event resets idling when it differs from the last-handled OR from the
-    last-seen essence). Residual guard `CreatedByFirstEvent`: the per-object memory is created by the
-    first processed event, which is how `memories.recall` works. Scope: `evs` is the history of ONE
-    memory, i.e. one operator process; changes made while no operator runs are not events — after a
-    restart the first sight of the object is the first event of the new memory and counts as a change. -/
+/-- The property's idle clause in FULL (`FullIdle`), UNGUARDED: with `idle_reset_time` derived from the
+    history of processed events — for EVERY event history and every creation time of the memory — no
+    run starts within the idle time after ANY essential change of the object that this operator process
+    has processed by then. An essential change is an event whose essence differs from the previously
+    processed one; for the first event of the memory, from the last-handled essence it carries (a new
+    object, a change made while no operator ran, or nothing recorded) — a first sight of an unchanged,
+    already handled object after a restart is not a change of the object, and there the timer waits
+    `idle` from the creation of the memory (`memories.recall`, which is not later than the first event's
+    processing). Changes are stamped when PROCESSED (`process_spawning_cause`, after indexing and
+    `@kopf.on.event` handlers), i.e. later than they happen: the safe side. Scope: one memory = one
+    operator process; changes made while no operator runs are not events, they surface as the first
+    event of the next process (differing from last-handled ⇒ essential). -/
 theorem idle_law_full (cfg : Cfg) (created spawn idle : Int) (evs : List Ev) (its : List Iter)
-    (hi : cfg.idle = some idle) (hcr : CreatedByFirstEvent created evs)
-    (h : Sched cfg (viewOf created evs) spawn its) : FullIdle idle evs its := by
+    (hi : cfg.idle = some idle) (h : Sched cfg (viewOf created evs) spawn its) : FullIdle idle evs its := by
   intro it hit _ c hc hle
   have := idle_law cfg (viewOf created evs) spawn idle its hi h it hit
-  have := viewOf_ge_essential created evs it.start c hcr hc hle
+  have := viewOf_ge_essential created evs it.start c hc hle
   omega
 
 /-- Idle-only timers (no interval): after an iteration that left the state finished, the next one needs
     a change newer than the iteration's start (read at one of the poll instants `patched, patched + idle, …`),
     and then the idle gate. -/
-theorem idle_only_law (cfg : Cfg) (view : View) (h' : HState) (it : Iter) (t' idle : Int)
+theorem idle_only_law (cfg : Cfg) (view : View) (h' : HState) (it : Iter) (top' t' idle : Int)
     (hn : cfg.interval = none) (hi : cfg.idle = some idle) (hd : h'.finished = true)
-    (h : Next cfg view h' it t') :
-    ∃ p, it.patched ≤ p ∧ p ≤ t' ∧ it.start < view p ∧ idle ≤ t' - view t' := by
+    (h : Next cfg view h' it top' t') :
+    it.patched ≤ top' ∧ top' ≤ t' ∧ it.start < view top' ∧ idle ≤ t' - view t' := by
   have hw : wake cfg h' it = .poll idle := by unfold wake; simp [hd, hn, hi]
   unfold Next at h; rw [hw] at h; simp only at h
-  obtain ⟨p, hp, hg⟩ := h
-  exact ⟨p, hp.ge, hg.ge, hp.seen, Gate.idle_ok hi hg⟩
+  obtain ⟨hp, hg⟩ := h
+  exact ⟨hp.ge, hg.ge, hp.seen, Gate.idle_ok hi hg⟩
 
 /-- Neither interval nor idle: after an iteration that left the state finished the loop breaks (one-shot). -/
-theorem one_shot (cfg : Cfg) (view : View) (h' : HState) (it : Iter) (t' : Int)
+theorem one_shot (cfg : Cfg) (view : View) (h' : HState) (it : Iter) (top' t' : Int)
     (hn : cfg.interval = none) (hi : cfg.idle = none) (hd : h'.finished = true) :
-    ¬ Next cfg view h' it t' := by
+    ¬ Next cfg view h' it top' t' := by
   have hw : wake cfg h' it = .stop := by unfold wake; simp [hd, hn, hi]
   unfold Next; rw [hw]; exact fun h => h
 
@@ -321,67 +408,89 @@ private def cfgS : Cfg := { interval := some 128, sharp := true, idle := none, i
 private def cfgI : Cfg := { interval := none, sharp := false, idle := some 96, initialDelay := none, backoff := 64 }
 private def pv0 : PView := fun t => some (view0 t)
 
--- first run: spawn 64, initial delay 32 → 96, but idle 96 after the reset at 64 → 160
-example : First cfgA view0 64 160 := firstStartN_sound (extends_total _) (n := 8) (by decide)
+-- first run: spawn 64, initial delay 32 → loop top at 96, but idle 96 after the reset at 64 → start 160
+example : First cfgA view0 64 96 160 := firstStartN_sound (extends_total _) (n := 8) (by decide)
 
 -- a full sequence of four iterations: slow ok with a patch (3 s > interval 2 s), temporary(delay 40)
--- with a patch, ok (retry=1; 521 is within idle 96 of the edit at 500 → 596), ok — `interval_law` (n=0: 353 + 128 = 481),
--- `error_delay_law` (n=1), `no_overlap`
-private def i1 : Iter := { start := 160, ended := 352, patched := 353, res := some .ok }
-private def i2 : Iter := { start := 481, ended := 481, patched := 482, res := some (.temporary (some 40)) }
-private def i3 : Iter := { start := 596, ended := 596, patched := 596, res := some .ok }
-private def i4 : Iter := { start := 724, ended := 724, patched := 724, res := some .ok }
-example : Sched cfgA view0 64 [i1, i2, i3, i4] := schedCheck_sound (extends_total _) (n := 8) (by decide)
-example : classify cfgA (attemptOf (stateAt cfgA [i1, i2, i3, i4] 0)) .ok = .done := by decide
-example : classify cfgA (attemptOf (stateAt cfgA [i1, i2, i3, i4] 1)) (.temporary (some 40)) = .retry (some 40) := by decide
-example : attemptOf (stateAt cfgA [i1, i2, i3, i4] 2) = 1 ∧ attemptOf (stateAt cfgA [i1, i2, i3, i4] 3) = 0 := by decide
+-- with a patch, ok (retry=1; the top at 521 is within idle 96 of the edit at 500 → 596), ok —
+-- `interval_law` (n=0: 353 + 128 = 481), `error_delay_law` (n=1), `no_overlap`
+private def i1 : Iter := { top := 96, start := 160, ended := 352, patched := 353, res := some .ok }
+private def i2 : Iter := { top := 481, start := 481, ended := 481, patched := 482, res := some (.temporary (some 40)) }
+private def i3 : Iter := { top := 521, start := 596, ended := 596, patched := 596, res := some .ok }
+private def i4 : Iter := { top := 724, start := 724, ended := 724, patched := 724, res := some .ok }
+private def itsA := [i1, i2, i3, i4]
+example : Sched cfgA view0 64 itsA := schedCheck_sound (extends_total _) (n := 8) (by decide)
+example : classify cfgA (attemptOf (stateAt cfgA 64 itsA 0) i1) (runtimeOf (stateAt cfgA 64 itsA 0) i1) .ok = .done := by decide
+example : classify cfgA (attemptOf (stateAt cfgA 64 itsA 1) i2) (runtimeOf (stateAt cfgA 64 itsA 1) i2) (.temporary (some 40))
+    = .retry (some 40) := by decide
+example : attemptOf (stateAt cfgA 64 itsA 2) i3 = 1 ∧ attemptOf (stateAt cfgA 64 itsA 3) i4 = 0 := by decide
 
 -- postponed by the edit at 500 (wake 417 + 128 = 545 < 500 + 96 = 596)
-private def iP : Iter := { start := 416, ended := 416, patched := 417, res := some .ok }
-example : Next cfgA view0 (step cfgA .fresh iP) iP 596 := nextStartN_sound (extends_total _) (n := 8) (by decide)
+private def iP : Iter := { top := 416, start := 416, ended := 416, patched := 417, res := some .ok }
+example : Next cfgA view0 (step cfgA (.fresh 0) iP) iP 545 596 := nextStartN_sound (extends_total _) (n := 8) (by decide)
 
 -- sharp grid: run of 3 s on a 2 s grid from 0 → next at 256 (k = 2); exactly one interval long → k = 2 too
-private def s1 : Iter := { start := 0, ended := 192, patched := 193, res := some .ok }
-private def s2 : Iter := { start := 256, ended := 384, patched := 384, res := some .ok }
-private def s3 : Iter := { start := 512, ended := 512, patched := 512, res := some .ok }
+private def s1 : Iter := { top := 0, start := 0, ended := 192, patched := 193, res := some .ok }
+private def s2 : Iter := { top := 256, start := 256, ended := 384, patched := 384, res := some .ok }
+private def s3 : Iter := { top := 512, start := 512, ended := 512, patched := 512, res := some .ok }
 example : Sched cfgS view0 0 [s1, s2, s3] := schedCheck_sound (extends_total _) (n := 8) (by decide)
 
 -- a timer that fails for good (retries = 2: the second temporary error is final): the loop goes on
 -- sleeping the interval, the function is never invoked again (`failed_is_last` with n = 2)
 private def cfgR : Cfg := { cfgS with retries := some 2 }
-private def f1 : Iter := { start := 0, ended := 0, patched := 0, res := some (.temporary (some 40)) }
-private def f2 : Iter := { start := 40, ended := 40, patched := 41, res := some (.temporary (some 40)) }
-private def f3 : Iter := { start := 168, ended := 168, patched := 168, res := none }
-private def f4 : Iter := { start := 296, ended := 296, patched := 296, res := none }
+private def f1 : Iter := { top := 0, start := 0, ended := 0, patched := 0, res := some (.temporary (some 40)) }
+private def f2 : Iter := { top := 40, start := 40, ended := 40, patched := 41, res := some (.temporary (some 40)) }
+private def f3 : Iter := { top := 168, start := 168, ended := 168, patched := 168, res := none }
+private def f4 : Iter := { top := 296, start := 296, ended := 296, patched := 296, res := none }
 example : Sched cfgR view0 0 [f1, f2, f3, f4] := schedCheck_sound (extends_total _) (n := 8) (by decide)
-example : (stateAt cfgR [f1, f2, f3, f4] 2).failure = true := by decide
+example : (stateAt cfgR 0 [f1, f2, f3, f4] 2).failure = true := by decide
 -- … and an iteration that claims to invoke the function after the failure is not a behaviour of the model
 example : schedCheck cfgR pv0 8 0 [f1, f2, { f3 with res := some .ok }] = false := by decide
 -- a one-shot timer that failed for good: the loop breaks
-example : nextStartN { cfgI with idle := none } pv0 8 (step cfgI .fresh { f1 with res := some .permanent }) f1 = .ended := by decide
+example : nextStartN { cfgI with idle := none } pv0 8 (step cfgI (.fresh 0) { f1 with res := some .permanent }) f1 = .ended := by decide
+
+-- timeout = 1 s, idle = 2 s on an object created at the spawn (t = 64): the gate holds the first iteration
+-- until 192, 128 ticks after the state was created: `HandlerTimeoutError` before the first call, and the
+-- function is never invoked (`timeout_before_first_call`; AUDIT_B2 §D-11). With timeout = 3 s it runs.
+private def cfgT : Cfg := { interval := some 64, sharp := false, idle := some 128, initialDelay := none, backoff := 64, timeout := some 64 }
+private def t1 : Iter := { top := 64, start := 192, ended := 192, patched := 192, res := none }
+private def t2 : Iter := { top := 256, start := 256, ended := 256, patched := 256, res := none }
+example : Sched cfgT view0 64 [t1, t2] := schedCheck_sound (extends_total _) (n := 8) (by decide)
+example : (64 : Int) ≤ t1.start - initialWake cfgT 64 := by decide
+example : Sched { cfgT with timeout := some 192 } view0 64 [{ t1 with res := some .ok }, { t2 with res := some .ok }] :=
+  schedCheck_sound (extends_total _) (n := 8) (by decide)
+-- look-ahead: a temporary error whose delay would cross the timeout is final
+example : classify { cfgA with timeout := some 100 } 0 70 (.temporary (some 40)) = .failed ∧
+          classify { cfgA with timeout := some 100 } 0 50 (.temporary (some 40)) = .retry (some 40) := by decide
 
 -- idle-only: ran at 200; polls at 200, 296, 392, 488, 584 (sees the edit of 500) → gate → 596
-private def iI : Iter := { start := 200, ended := 200, patched := 200, res := some .ok }
-example : Next cfgI view0 (step cfgI .fresh iI) iI 596 := nextStartN_sound (extends_total _) (n := 8) (by decide)
+private def iI : Iter := { top := 200, start := 200, ended := 200, patched := 200, res := some .ok }
+example : Next cfgI view0 (step cfgI (.fresh 0) iI) iI 584 596 := nextStartN_sound (extends_total _) (n := 8) (by decide)
 
 -- regression of the former finding C10-F1 (corpus/C10/F1.json): created at 64 (essence 0), recorded as handled
 -- (66), edited to essence 1 at 512 and never recorded as handled, edited BACK to essence 0 at 864. The old
 -- code kept `idle_reset_time` at 512 and ran at 896; now the flip-back is a reset: the view becomes 864 …
 private def evsF : List Ev := [⟨64, 0, none⟩, ⟨66, 0, some 0⟩, ⟨512, 1, some 0⟩, ⟨864, 0, some 0⟩]
 private def cfgF : Cfg := { interval := some 64, sharp := false, idle := some 256, initialDelay := none, backoff := 64 }
-private def mkF (t : Int) : Iter := { start := t, ended := t, patched := t, res := some .ok }
+private def mkF (top t : Int) : Iter := { top := top, start := t, ended := t, patched := t, res := some .ok }
 example : viewOf 64 evsF 511 = 64 ∧ viewOf 64 evsF 863 = 512 ∧ viewOf 64 evsF 896 = 864 := by decide
-example : essentialTimes none evsF = [64, 512, 864] := by decide
-example : CreatedByFirstEvent 64 evsF := by intro e he; simp [evsF] at he; subst he; decide
+example : essentialTimes evsF = [64, 512, 864] := by decide
 -- … the run at 896 (32 ticks after the change) is no behaviour of the model any more, the next run is at 864 + 256
-example : schedCheck cfgF (fun t => some (viewOf 64 evsF t)) 8 64 [mkF 320, mkF 384, mkF 448, mkF 768, mkF 832, mkF 896] = false := by
-  decide
-example : Sched cfgF (viewOf 64 evsF) 64 [mkF 320, mkF 384, mkF 448, mkF 768, mkF 832, mkF 1120] :=
-  schedCheck_sound (extends_total _) (n := 8) (by decide)
+example : schedCheck cfgF (fun t => some (viewOf 64 evsF t)) 8 64
+    [mkF 64 320, mkF 384 384, mkF 448 448, mkF 512 768, mkF 832 832, mkF 896 896] = false := by decide
+private def itsF := [mkF 64 320, mkF 384 384, mkF 448 448, mkF 512 768, mkF 832 832, mkF 896 1120]
+example : Sched cfgF (viewOf 64 evsF) 64 itsF := schedCheck_sound (extends_total _) (n := 8) (by decide)
 -- … and that schedule meets the full clause (an instance of `idle_law_full`)
-example : FullIdle 256 evsF [mkF 320, mkF 384, mkF 448, mkF 768, mkF 832, mkF 1120] :=
-  idle_law_full cfgF 64 64 256 evsF _ rfl (by intro e he; simp [evsF] at he; subst he; decide)
-    (schedCheck_sound (extends_total _) (n := 8) (by decide))
+example : FullIdle 256 evsF itsF :=
+  idle_law_full cfgF 64 64 256 evsF _ rfl (schedCheck_sound (extends_total _) (n := 8) (by decide))
+-- restart on an already handled, unchanged object (AUDIT_A2): the memory is created at 1408 by `recall`, a slow
+-- on.event handler delays the first event's processing to 1536, it carries last-handled = its essence: no
+-- essential change, no reset; the timer (idle 256) runs at 1408 + 256 — `FullIdle` holds, nothing changed
+private def evsR : List Ev := [⟨1536, 0, some 0⟩]
+example : essentialTimes evsR = [] := by decide
+example : Sched cfgF (viewOf 1408 evsR) 1408 [mkF 1408 1664] := schedCheck_sound (extends_total _) (n := 8) (by decide)
+-- … whereas after a change made while the operator was down (last-handled 0, essence 1) the first event resets
+example : essentialTimes [⟨1536, 1, some 0⟩] = [1536] ∧ viewOf 1408 [⟨1536, 1, some 0⟩] 1700 = 1536 := by decide
 
 end Examples
 
